@@ -136,6 +136,25 @@ type containerExec struct {
 	ledger map[string]string // cid hex -> content
 	header []byte            // the CAR header the writer emits
 	wr     container.Writer  // the run's one Writer (Reuse)
+	held   []heldOut         // every byte slice a writer has returned, with a private copy
+}
+
+type heldOut struct {
+	format   string
+	got, dup []byte
+}
+
+// checkHeld: what a writer returned belongs to the caller; later writes (same or another
+// Writer, any format) must leave it alone.
+func (e *containerExec) checkHeld(after string) {
+	for _, h := range e.held {
+		e.o.Eval("C17")
+		if !bytes.Equal(h.got, h.dup) {
+			e.o.Violate("C17", "written-bytes-changed", fmt.Sprintf("the %s container a writer returned earlier was changed by a later %s", h.format, after), map[string]string{"format": h.format})
+			e.held = nil
+			return
+		}
+	}
 }
 
 func execContainer(t *testing.T, pl Plan, seed uint64, o *Outcome) {
@@ -630,6 +649,22 @@ func (e *containerExec) one(s *CStep) {
 		return
 	}
 	variant := fmt.Sprintf("writer=%s reader=%s", map[bool]string{false: "bytes", true: "stream"}[s.WStream], map[bool]string{false: "bytes", true: "stream"}[s.RStream])
+	if err == nil && !s.WStream {
+		e.checkHeld("write of a " + s.Format + " container")
+		if len(e.held) < 24 {
+			e.held = append(e.held, heldOut{s.Format, raw, append([]byte{}, raw...)})
+		}
+		// a write of a DIFFERENT set in between (one token only), as another user of the package would do
+		if len(e.sealed) > 0 {
+			w2 := container.NewWriter()
+			w2.AddSealed(mustCID(harnessCID(e.sealed[0])), e.sealed[0])
+			_, _ = w2.ToCbor()
+			_, _ = w2.ToCborBase64()
+			_, _ = w2.ToCar()
+			_, _ = w2.ToCarBase64()
+			e.checkHeld("write of another container")
+		}
+	}
 	if err != nil {
 		o.Violate("C17", "write-failed", fmt.Sprintf("%s writer failed without a fault: %v", s.Format, err), map[string]string{"format": s.Format})
 		return
@@ -794,6 +829,10 @@ func (e *containerExec) one(s *CStep) {
 	case "hostile_len":
 		// a length prefix that declares far more than is there
 		huge := []uint64{1 << 25, 1<<25 + 1, 1 << 31, 1 << 40, 1<<63 - 1, 1<<64 - 1}[s.Pos%6]
+		if s.Pos%3 == 1 {
+			// or far LESS than is there: shorter than the CID that follows, a byte, nothing
+			huge = []uint64{0, 1, 2, 3, 5, 17, 33, 34, 35, 36, 37, 38, 40, 64, 127, 128}[(s.Pos/3)%16]
+		}
 		if isCar {
 			bs := car.Boundaries()
 			off := bs[idx%len(bs)]
